@@ -70,6 +70,11 @@ def _silence():
         prev(u)
 
     sys.unraisablehook = hook
+    # sibling coroutines of a failed callback group that fail too are reported by asyncio's logger when they are collected
+    # ("Task exception was never retrieved"): expected with injected faults, not a verdict
+    import logging
+
+    logging.getLogger("asyncio").setLevel(logging.CRITICAL)
 
 
 def worker(job):
